@@ -105,6 +105,22 @@ def run_case(case):
                     ok, why = close(den.inv(tgt), src, rtol=1e-5, atol=atol)
                     if not ok:
                         V.append(dict(clause="denormalize_inv_of_bound_" + nm, detail=why))
+                # integer-typed bounds (python ints / int arrays), odd and even widths: -1 -> min, +1 -> max, round trip
+                for lo_i, hi_i in ((0, 5), (-2, 1), (-3, 0), (2, 4), (jnp.array([0, -3], jnp.int32), jnp.array([1, 4], jnp.int32))):
+                    try:
+                        di = Denormalize.init({"k": lo_i}, {"k": hi_i})
+                    except ValueError as ex_i:
+                        V.append(dict(clause="denormalize_refuses_valid_integer_bounds", lo=str(lo_i), hi=str(hi_i), error=str(ex_i)[:80]))
+                        continue
+                    counters["integer_bounds_checked"] += 1
+                    one = jnp.ones_like(jnp.asarray(lo_i), dtype=jnp.float32)
+                    got_lo = onp.asarray(di.apply({"k": -one})["k"], float)
+                    got_hi = onp.asarray(di.apply({"k": one})["k"], float)
+                    if not onp.allclose(got_lo, onp.asarray(lo_i, float), atol=1e-6) or not onp.allclose(got_hi, onp.asarray(hi_i, float), atol=1e-6):
+                        V.append(dict(clause="denormalize_integer_bounds_endpoints", lo=str(lo_i), hi=str(hi_i), got_lo=got_lo.tolist(), got_hi=got_hi.tolist()))
+                    xi = {"k": 0.37 * one}
+                    if not onp.allclose(onp.asarray(di.inv(di.apply(xi))["k"], float), 0.37, atol=1e-5):
+                        V.append(dict(clause="denormalize_integer_bounds_roundtrip", lo=str(lo_i), hi=str(hi_i)))
                 grid = [tmap(lambda l: jnp.full_like(l, g), lo) for g in onp.linspace(-1, 1, 9)]
                 vals = [den.apply(g) for g in grid]
                 for a, b in zip(vals[:-1], vals[1:]):
@@ -199,6 +215,24 @@ def run_case(case):
                         if not onp.array_equal(onp.asarray(e_), onp.asarray(want)):
                             V.append(dict(clause="extend_overwrote_supplied_leaf" if s_ is not None else "extend_did_not_fill_from_base", leaf=i))
                             break
+                # base trees that themselves contain None leaves (optional parameters): supplied leaves must still land in their own slot
+                for base_n, part_n, want in (
+                    ({"a": jnp.float32(1.0), "b": None, "c": jnp.float32(3.0)}, {"a": None, "b": None, "c": jnp.float32(7.0)}, {"a": 1.0, "b": None, "c": 7.0}),
+                    ({"a": None, "b": jnp.float32(2.0), "c": jnp.float32(3.0)}, {"a": None, "b": jnp.float32(8.0), "c": None}, {"a": None, "b": 8.0, "c": 3.0}),
+                    ({"m": {"opt": None, "scale": jnp.float32(2.0)}, "z": jnp.float32(5.0)}, {"m": {"opt": None, "scale": jnp.float32(30.0)}, "z": None}, {"m": {"opt": None, "scale": 30.0}, "z": 5.0}),
+                ):
+                    try:
+                        got_n = Extend.init(base_n, part_n).apply(part_n)
+                    except Exception as ex_n:
+                        counters["extend_none_in_base_refused"] += 1
+                        continue
+                    counters["extend_none_in_base_checked"] += 1
+                    flat_g = jax.tree_util.tree_flatten_with_path(got_n, is_leaf=lambda x_: x_ is None)[0]
+                    flat_w = jax.tree_util.tree_flatten_with_path(want, is_leaf=lambda x_: x_ is None)[0]
+                    gw = {jax.tree_util.keystr(p_): (None if v_ is None else float(v_)) for p_, v_ in flat_g}
+                    ww = {jax.tree_util.keystr(p_): v_ for p_, v_ in flat_w}
+                    if gw != ww:
+                        V.append(dict(clause="extend_with_none_in_base_misplaces_leaves", got=gw, expected=ww))
             else:  # shared
                 tree = {"a": None, "b": jnp.asarray(rng.uniform(-1, 1, rnd.choice([(), (3,)])), jnp.float32), "c": {"d": None, "e": jnp.float32(2.0)}}
                 sh = Shared.init(where=lambda p: p["a"], replace_fn=lambda p: p["b"])
